@@ -95,7 +95,9 @@ type harness struct {
 	// lifecycle state as known to the harness
 	pausedSince     int64 // >0: Pause returned at that seq and no Resume was invoked since
 	terminatedSince int64
-	lifecycleBusy   bool
+	lifecycleBusy   int // lifecycle commands in flight
+	resumeInFlight  int // Resume/Reset calls in flight (they may start the session again)
+	lifecycleHeld   int // the controller's lifecycle lock, as seen through the automatic yield sites
 	mgrBusy         bool
 	cmds            []*cmdRecord
 
@@ -955,7 +957,7 @@ func (h *harness) clientOp(actor string, op simkit.Op) {
 	rec.invoke = h.next()
 	h.cmds = append(h.cmds, rec)
 	if lifecycle {
-		h.lifecycleBusy = true
+		h.lifecycleBusy++
 		// A cycle interrupted by a lifecycle command did not run to its end
 		// (its archive may never have been saved): no fixpoint expectation
 		// carries over to the next one.
@@ -970,6 +972,7 @@ func (h *harness) clientOp(actor string, op simkit.Op) {
 		if op.Kind == "resume" {
 			h.pausedSince = 0
 		}
+		h.resumeInFlight++
 	}
 	mgr := h.mgr
 	h.mu.Unlock()
@@ -978,10 +981,18 @@ func (h *harness) clientOp(actor string, op simkit.Op) {
 		rec.ret = h.next()
 		rec.err = err
 		if lifecycle {
-			h.lifecycleBusy = false
+			h.lifecycleBusy--
 			h.cycleClean = false // scans that returned while the command ran belong to an interrupted cycle
 		}
-		h.mgrBusy = false
+		if op.Kind == "resume" || op.Kind == "reset" {
+			h.resumeInFlight--
+		}
+		if op.Kind == "restart" {
+			// (only the restart itself ends the window in which the manager is
+			// being replaced - not another caller's command that happened to
+			// return meanwhile)
+			h.mgrBusy = false
+		}
 		h.mu.Unlock()
 		s.Logf(actor, "%s -> %v", op.Kind, err)
 	}
@@ -1029,11 +1040,15 @@ func (h *harness) clientOp(actor string, op simkit.Op) {
 		}
 		h.mu.Lock()
 		busy := h.inflightEP["alpha"] + h.inflightEP["beta"]
-		if err == nil {
+		// (Another caller's Resume or Reset queued behind this Pause starts the
+		// session again as soon as the Pause lets go of the controller: then
+		// there is nothing to claim about the time after it.)
+		overtaken := h.resumeInFlight > 0
+		if err == nil && !overtaken {
 			h.pausedSince = h.next()
 		}
 		h.mu.Unlock()
-		if err == nil && busy > 0 {
+		if err == nil && busy > 0 && !overtaken {
 			s.Violate("C29", "pause-returned-while-active", "Pause", "Pause returned while %d endpoint method(s) were still in progress", busy)
 		}
 		if err == nil {
